@@ -100,6 +100,29 @@ class C11(Spec):
             # free exploration of every scheduling point (the model is not involved): programs only, header carries a seed
             out = []
             for _ in range(n):
+                if rng.chance(1, 3):
+                    # structure race: one thread creates keys, lets them die and shrinks them away (each of these steps changes what
+                    # exists() / depth() report) while the others keep delivering to a live observer through wildcard patterns
+                    pool = [1, 2, 4, 5, 6, 7, 8, 9]
+                    top = rng.choice(pool)
+                    live = [top, rng.choice(pool)]
+                    prog1, hid = [0] + live, 1
+                    for _k in range(rng.range(1, 3)):
+                        dead = [top if rng.chance(1, 2) else rng.choice(pool), rng.choice(pool)] + ([rng.choice(pool)] if rng.chance(1, 3) else [])
+                        if dead == live: continue
+                        pat = rng.choice([[2] * len(dead), [x for y in dead for x in (0, y)], [0, dead[0]] + [2] * (len(dead) - 1)])
+                        prog1 += [-1, 0] + dead + [-1, 1, hid, -1, 11] + pat
+                        hid += 1
+                    nt = rng.choice([2, 3])
+                    others = []
+                    for _t in range(nt - 1):
+                        line = []
+                        for _k in range(rng.range(2, 5)):
+                            line += ([-1] if line else []) + [6, rng.range(1, 99)] + rng.choice([[2, 2], [0, top, 2], [0, live[0], 0, live[1]]])
+                        others.append(line)
+                    ms = props_router.MS
+                    out.append(("free structure-race", [[nt, len(ms), rng.range(1, 10 ** 9)]] + [list(m) for m in ms] + [prog1] + others))
+                    continue
                 lines = gen_case(rng)
                 nt, nrx = lines[0]
                 out.append(("free", [[nt, nrx, rng.range(1, 10 ** 9)]] + lines[1:1 + nrx + nt]))
